@@ -257,6 +257,10 @@ def tp_cases(rng=None, n=0):
     """element type that is trivially destructible but has observable copy/move constructors (comp/holders/tp_part.hpp)"""
     return [("ex-tp", ["type tp F", "run 5"])] + [("g-tp-%d" % i, ["type tp F", "run %d" % rng.randrange(0, 10**6)]) for i in range(n)]
 
+def mix_cases(rng=None, n=0):
+    """variants mixing trivially destructible alternatives with tracked class types (comp/holders/mix_part.hpp)"""
+    return [("ex-mix", ["type mix F", "run 5"])] + [("g-mix-%d" % i, ["type mix F", "run %d" % rng.randrange(0, 10**6)]) for i in range(n)]
+
 def thr_cases(rng=None, n=0):
     """fault injection at every element construction point (comp/holders/throw_part.hpp)"""
     cs = [("ex-thr", ["type thr F", "sweep 5 6"])]
@@ -276,6 +280,8 @@ def corpus(exp_copy_assign=True):
                                                  "make 2 8", "massign 0 2", "reset 2", "reset 0", "resetnew 1 9", "del 1"]))
     # seeded change caught in round 2 (follow-up 3): optional(const optional&) copies the storage bytes for trivially destructible T
     cs.append(("corpus-tp-bytewise-copy", ["type tp F", "run 5"]))
+    # seeded change caught in round 2 (follow-up 3): ~variant skips the destructor walk when SOME alternative is trivially destructible
+    cs.append(("corpus-mix-variant-dtor", ["type mix F", "run 5"]))
     cs.append(("corpus-thr-sweep", ["type thr F", "sweep 5 6"]))
     # seeded change caught in round 2: manual_box::initialize with T{args...} (vector<int>(3, 7) became {3, 7})
     cs.append(("corpus-il-initialize-braces", ["type il F", "fwd 3 7", "one 3"]))
